@@ -106,9 +106,18 @@ class Bad:
             self.items[sig] = (text, rep)
 
     def merge_into(self, other):
-        for k, v in self.items.items():
-            if k not in other:
-                other[k] = v
+        keep_smallest(other, self.items)
+
+
+def case_size(rep):
+    """Size of a failing case: the smallest one is the one reported."""
+    return len(repr(rep))
+
+
+def keep_smallest(found, items):
+    for k, v in items.items():
+        if k not in found or case_size(v[1]) < case_size(found[k][1]):
+            found[k] = v
 
 
 def report_all(ctx: Ctx, found: dict):
@@ -328,8 +337,7 @@ def merge_stats(outs, found):
                 tot[k] |= v
             else:
                 tot[k] += v
-        for k, v in items.items():
-            found.setdefault(k, v)
+        keep_smallest(found, items)
     return tot
 
 
@@ -566,8 +574,7 @@ def part_packings(ctx: Ctx, found):
     cnt = sum(o[0] for o in out)
     logs = sum(o[1] for o in out)
     for o in out:
-        for k, v in o[6].items():
-            found.setdefault(k, v)
+        keep_smallest(found, o[6])
     if any(o[3] for o in out):
         ctx.cap("packings: more than 200000 packings for "
                 f"{sum(o[3] for o in out)} instances, the rest not stored")
@@ -594,8 +601,7 @@ def part_packings(ctx: Ctx, found):
     out = pmap(_shipped_packing_job, [names[i::nch] for i in range(nch)],
                ctx.jobs)
     for o in out:
-        for k, v in o[3].items():
-            found.setdefault(k, v)
+        keep_smallest(found, o[3])
     dts = set()
     for o in out:
         dts |= o[2]
@@ -782,8 +788,7 @@ def part_game_plans(ctx: Ctx, found):
     def absorb(name, out, **kv):
         nonlocal total, distinct
         for o in out:
-            for k, v in o[3].items():
-                found.setdefault(k, v)
+            keep_smallest(found, o[3])
         c = sum(o[0] for o in out)
         d = sum(o[1] for o in out)
         ctx.part(name, plans=c, distinct_texts=d,
@@ -929,8 +934,7 @@ def part_orderings(ctx: Ctx, found):
     nch = max(1, min(ctx.jobs * 2, len(cases) // 4))
     out = pmap(_ordering_job, [cases[i::nch] for i in range(nch)], ctx.jobs)
     for o in out:
-        for k, v in o[3].items():
-            found.setdefault(k, v)
+        keep_smallest(found, o[3])
     sizes = set()
     dts = set()
     for o in out:
@@ -952,9 +956,10 @@ def part_orderings(ctx: Ctx, found):
 # --------------------------------------------------------------------------
 TABLE_INSTANCES = {
     # name: (W, H, rows); chosen so that the three bin bounds are not all
-    # equal: ia -> (2, damv 1, geometric 2), ib -> (3, damv 3, geometric 2)
+    # equal: ia -> (2, damv 1, geometric 2), ib -> (3, damv 3, geometric 2);
+    # table_world() verifies that (else exchanged columns would go unseen)
     "ia": (3, 2, [[1, 1, 7]]),
-    "ib": (10, 12, [[6, 7, 3], [4, 5, 1], [3, 1, 11]]),
+    "ib": (10, 12, [[7, 8, 3], [4, 5, 1], [3, 1, 11]]),
 }
 ALGOS = ("a1", "a2")
 OBJS = ("binCount", "binCountAndLastSmall")
@@ -989,6 +994,22 @@ def table_world():
     _TAB["world"] = world
     _TAB["cache"] = {}
     _TAB["recs"] = {}
+    from moptipyapps.binpacking2d import packing_result as PR
+    from moptipy.evaluation.end_results import EndResult
+    seen = set()
+    for nm, (inst, pks) in world.items():
+        bb = PR.from_packing_and_end_result(EndResult(
+            "x", nm, "binCount", None, 1, pks[1].n_bins, 1, 0, 1, 0, None,
+            None, None), pks[1]).bin_bounds
+        v = [bb.get("bins.lowerBound"), bb.get("bins.lowerBound.damv"),
+             bb.get("bins.lowerBound.geometric")]
+        seen |= {(i, j) for i in range(3) for j in range(3) if v[i] != v[j]}
+        if pks[1].n_bins == pks[2].n_bins or inst.n_items == \
+                inst.n_different_items or inst.bin_width == inst.bin_height:
+            raise HarnessError(f"table instance {nm} does not discriminate")
+    if len(seen) != 6:
+        raise HarnessError("table instances do not tell the three bin "
+                           f"bound columns apart: {sorted(seen)}")
     return _TAB
 
 
@@ -1036,6 +1057,48 @@ def boundary_specs():
     return out
 
 
+def float_specs():
+    """Records over eight objectives, one of them real valued."""
+    return [{"algorithm": "a1", "instance": i, "objective": o,
+             "encoding": None, "max_fes": mf, "max_time_millis": None,
+             "goal": g, "seed": sd, "packing": sd, "objset": "float"}
+            for i in TABLE_INSTANCES for o in ("thirdBins", "binCount")
+            for mf in MAX_FES for g in (None, "lb", 0.1) for sd in SEEDS]
+
+
+def objective_set(name):
+    """The objective factories of a record ('float': one more, real)."""
+    from moptipyapps.binpacking2d import packing_result as PR
+    if name is None:
+        return PR.DEFAULT_OBJECTIVES
+    if "float" not in _TAB:
+        from moptipy.api.objective import Objective
+
+        class ThirdBins(Objective):
+            """Number of bins plus one third: a real valued objective."""
+
+            def __init__(self, instance):
+                super().__init__()
+                self.n = instance.n_items
+
+            def evaluate(self, x):
+                return x.n_bins + (1 / 3)
+
+            def lower_bound(self):
+                return 1 / 3
+
+            def upper_bound(self):
+                return float("inf")
+
+            def is_always_integer(self):
+                return False
+
+            def __str__(self):
+                return "thirdBins"
+        _TAB["float"] = tuple(PR.DEFAULT_OBJECTIVES) + (ThirdBins, )
+    return _TAB["float"]
+
+
 def spec_key(s):
     return tuple(sorted((k, tuple(v) if isinstance(v, list) else v)
                         for k, v in s.items()))
@@ -1052,11 +1115,12 @@ def make_record(spec):
     inst, pks = tw["world"][spec["instance"]]
     pk = pks[spec["packing"]]
     run = spec.get("run") or RUN[spec["packing"]]
-    pkey = (spec["instance"], spec["packing"])
+    objs = objective_set(spec.get("objset"))
+    pkey = (spec["instance"], spec["packing"], spec.get("objset"))
     if pkey not in tw["cache"]:
         er0 = EndResult("x", inst.name, "binCount", None, 1, pk.n_bins, 1, 0,
                         1, 0, None, None, None)
-        tw["cache"][pkey] = PR.from_packing_and_end_result(er0, pk)
+        tw["cache"][pkey] = PR.from_packing_and_end_result(er0, pk, objs)
     probe = tw["cache"][pkey]
     obj = spec["objective"]
     goal = spec["goal"]
@@ -1066,7 +1130,7 @@ def make_record(spec):
                    spec["seed"], probe.objectives[obj], run[0], run[1],
                    run[2], run[3], goal, spec["max_fes"],
                    spec["max_time_millis"])
-    rec = PR.from_packing_and_end_result(er, pk)
+    rec = PR.from_packing_and_end_result(er, pk, objs)
     tw["recs"][key] = rec
     return rec
 
@@ -1097,8 +1161,9 @@ def record_self_check(spec):
     if rec.objectives.get("binCount") != pk.n_bins:
         probs.append(("binCount", rec.objectives.get("binCount"),
                       pk.n_bins))
-    if len(rec.objectives) != 7 or len(rec.objective_bounds) != 14:
-        probs.append(("objectives", len(rec.objectives), 7))
+    nobj = 8 if spec.get("objset") else 7
+    if len(rec.objectives) != nobj or len(rec.objective_bounds) != 2 * nobj:
+        probs.append(("objectives", len(rec.objectives), nobj))
     for o, v in rec.objectives.items():
         lo = rec.objective_bounds.get(f"{o}.lowerBound")
         hi = rec.objective_bounds.get(f"{o}.upperBound")
@@ -1321,7 +1386,8 @@ def base_ib_specs():
 
 
 ALPHABETS = {"base": base_specs, "mixed": mixed_specs,
-             "objectives": seven_objective_specs, "base_ib": base_ib_specs}
+             "objectives": seven_objective_specs, "base_ib": base_ib_specs,
+             "floats": float_specs}
 
 
 def comb(n, k):
@@ -1348,8 +1414,7 @@ def merge_counters(outs, found):
                 tot[k].update(v)
             else:
                 tot[k] += v
-        for k, v in items.items():
-            found.setdefault(k, v)
+        keep_smallest(found, items)
     return tot
 
 
@@ -1372,6 +1437,7 @@ def part_tables(ctx: Ctx, found):
     ctx.part("csv_record_alphabet", records=len(base_specs()),
              boundary_records=len(boundary_specs()),
              seven_objective_records=len(seven_objective_specs()),
+             real_valued_objective_records=len(float_specs()),
              self_checked=nrec, bin_bounds=bb,
              factors={"algorithm": ALGOS, "objective": OBJS,
                       "encoding": ENCS, "max_fes": MAX_FES,
@@ -1379,9 +1445,11 @@ def part_tables(ctx: Ctx, found):
                       "seed": SEEDS, "instance": list(TABLE_INSTANCES)})
     plan = [("base", 1, "both"), ("base", 2, "both"), ("mixed", 1, "both"),
             ("mixed", 2, "both"), ("objectives", 1, "both"),
-            ("objectives", 2, "both")]
+            ("objectives", 2, "both"), ("floats", 1, "both"),
+            ("floats", 2, "both")]
     if not ctx.quick:
-        plan += [("mixed", 3, "both"), ("base", 3, "results"),
+        plan += [("mixed", 3, "both"), ("floats", 3, "both"),
+                 ("base", 3, "results"),
                  ("base_ib", 3, "statistics")]
         ctx.cap("statistics CSV of 3-record tables: only the tables over "
                 "the 128 records of instance ib (341376 of 2763520); the "
@@ -1635,6 +1703,35 @@ def run_case(rep: dict) -> dict:
     return bad.items
 
 
+def real_samples():
+    """A few cases as they were actually executed (for the evidence file)."""
+    from moptipyapps.binpacking2d import packing_result as PR
+    from moptipyapps.binpacking2d.instance import Instance
+    from moptipyapps.ttp.game_plan import GamePlan
+    from moptipyapps.ttp.game_plan_space import GamePlanSpace
+    inst = Instance("x1", 9, 10, [[9, 1, 11], [10, 9, 1]])
+    text = inst.to_compact_str()
+    yield {"instance_text": text,
+           "parsed": instance_view(Instance.from_compact_str(text))}
+    ti = ttp_instance(2, 2)
+    sp = GamePlanSpace(ti)
+    gp = GamePlan(ti)
+    gp[:, :] = [[2, -1], [-2, 1]]
+    text = sp.to_str(gp)
+    yield {"plan_text": text, "parsed": np.asarray(sp.from_str(text)).tolist(),
+           "dtype": str(sp.from_str(text).dtype)}
+    specs = [base_specs()[0], base_specs()[-1]]
+    path = tmp_file("sample")
+    with quiet():
+        PR.to_csv([make_record(x) for x in specs], path)
+        back = list(PR.from_csv(path))
+    with open(path) as f:
+        lines = data_lines(f.read())
+    yield {"table": specs, "csv_rows": lines,
+           "parsed_bin_bounds": [dict(b.bin_bounds) for b in back],
+           "parsed_end_results": [repr(b.end_result) for b in back]}
+
+
 def run(ctx: Ctx) -> None:
     found: dict = {}
     try:
@@ -1651,6 +1748,11 @@ def run(ctx: Ctx) -> None:
             ctx.log(f"{part.__name__}: {t} reader executions so far "
                     f"{total}; violations so far {len(found)}")
         report_all(ctx, found)
+        try:
+            for smp in real_samples():
+                ctx.sample(smp)
+        except Exception as e:  # noqa (a broken tree: samples are optional)
+            ctx.log(f"samples not available: {type(e).__name__}: {e}")
     finally:
         drop_tmp()
     ctx.add("evaluations", total)
@@ -1664,15 +1766,6 @@ def run(ctx: Ctx) -> None:
         "and written again; distinct_nontrivial = number of distinct texts "
         "(distinct header lines for CSV tables) that were parsed back, "
         "counted per shard of disjoint inputs and summed")
-    ctx.sample({"instance": "x1;2;9;10;9,1,11;10,9",
-                "checked": "name, W, H, n_items=12, n_different=2, area, "
-                           "lower bound, dtype, matrix"})
-    ctx.sample({"plan text": "2;-1\\n\\nT1 T2\\nT2 @T1",
-                "checked": "first line parsed, tail ignored, dtype int8"})
-    ctx.sample({"table": [base_specs()[0], base_specs()[-1]],
-                "checked": "end result incl. goal/budgets, instance "
-                           "attributes, 7 objectives, 14 objective bounds, "
-                           "3 bin bounds; second write identical"})
     ctx.assume("bins up to 4x4 (5x5 thorough) with <= 3 items (4 items up "
                "to 3x3 thorough) for instances; packings of the specs listed"
                " in parts; 2 and 4 teams exhaustively, 4..10 and shipped "
@@ -1682,9 +1775,14 @@ def run(ctx: Ctx) -> None:
                "6*10^4 square-visits in the lower bound routine are "
                "skipped (the constructor materialises every cut square)")
     ctx.assume("CSV values: the record alphabet listed under parts; "
-               "objective values are integers (all seven shipped objectives "
-               "are integer valued); measured run times of records read "
-               "from logs are not compared with the in-memory run")
+               "the seven shipped objectives are integer valued, real "
+               "values enter through one synthetic objective (bins + 1/3, "
+               "upper bound inf) and through goal_f; measured run times of "
+               "records read from logs are not compared with the in-memory "
+               "run")
+    ctx.assume("goal_f / max_fes / max_time_millis of end statistics: a "
+               "bare number and sample statistics with minimum == maximum "
+               "are the same data (moptipy's compact form)")
 
 
 def replay(ctx: Ctx, rep: dict) -> bool:
